@@ -29,6 +29,11 @@ impl Rng {
     pub fn bytes(&mut self, n: usize) -> Vec<u8> {
         (0..n).map(|_| self.next() as u8).collect()
     }
+    /// random bytes with a random length in lo..=hi
+    pub fn bytes_in(&mut self, lo: u64, hi: u64) -> Vec<u8> {
+        let n = self.range(lo, hi) as usize;
+        self.bytes(n)
+    }
     pub fn fork(&mut self) -> Rng {
         Rng(self.next())
     }
